@@ -7,6 +7,7 @@
 //@heap Heap
 //@tp T
 //@celltp
+//@extratag @C09 a member is subscribed only while no other subscription is in progress
 
 pub struct G<T> { pub dn: DnLink<T>, pub ups: Seq<UpLink<T>>, pub mdata: Seq<Seq<T>>, pub cat: Seq<T> }
 pub struct Cap { pub n: usize, pub pullable: bool }
@@ -140,7 +141,7 @@ pub open spec fn upsrc_gate<T>(s: UpSrc, k: int, h: Heap, g: G<T>, c: Cap, m: Me
     if k == $GATE_LAZY { forall|j: int| 0 <= j < s.i && j < g.ups.len() ==> (#[trigger] g.ups[j]).phase == Up::EndedBySelf } else { true }
 }
 
-//@include env_dn.rs OP=concat TP=T G=G<T> GNAME=G HEAP=Heap O=T ORPHAN="forall|j: int| 0 <= j < g.ups.len() ==> (#[trigger] g.ups[j]).phase != Up::Live" QUIET="quiet(g)"
+//@include env_dn.rs OP=concat TP=T G=G<T> GNAME=G HEAP=Heap O=T ORPHAN="forall|j: int| 0 <= j < g.ups.len() ==> (#[trigger] g.ups[j]).phase != Up::Live" QUIET="quiet(g)" SINKGATE=true
 //@include env_upn.rs OP=concat TP=T G=G<T> GNAME=G HEAP=Heap I=T
 
 /// the state in which `next` is entered: the cursor points at a member that is not subscribed yet
